@@ -13,6 +13,7 @@ import (
 // C09 — LeafNodes lists every terminal value once, with a path that resolves to it.
 
 type c09Case struct {
+	Toggle bool            `json:"dot_notation_reached_by_toggling,omitempty"`
 	Map    json.RawMessage `json:"map"`
 	Prefix string          `json:"attr_prefix"`
 	NoAttr bool            `json:"no_attr"`
@@ -26,12 +27,24 @@ func init() {
 		json.Unmarshal(cas, &k)
 		m := fromJSON(string(k.Map)).(map[string]interface{})
 		applyCfg(Cfg{AttrPrefix: k.Prefix, KeyPrefix: "#", DotNot: k.Dot})
+		if k.Toggle {
+			c09Toggle(k.Dot)
+		}
+		c09Toggled = k.Toggle
 		rt.OrderPolicy = k.Pol
 		c09Check(c, m, k.Prefix, k.NoAttr, k.Dot)
 		rt.OrderPolicy = rt.PolicySorted
 		resetOptions()
 	}})
 }
+
+// c09Toggle reaches the dot-notation setting through the argument-less (toggling) form.
+func c09Toggle(dot bool) {
+	mxj.LeafUseDotNotation(!dot) // explicit opposite ...
+	mxj.LeafUseDotNotation()     // ... then toggle into the wanted state
+}
+
+var c09Toggled bool
 
 type refLeaf struct {
 	path string
@@ -115,7 +128,7 @@ func hasEmptyKey(v interface{}) bool {
 func c09Check(c *Ctx, m map[string]interface{}, prefix string, noattr, dot bool) (nontrivial bool) {
 	mv := mxj.Map(m)
 	cas := func() interface{} {
-		return c09Case{Map: json.RawMessage(jsonOf(m)), Prefix: prefix, NoAttr: noattr, Dot: dot, Pol: rt.OrderPolicy}
+		return c09Case{Map: json.RawMessage(jsonOf(m)), Prefix: prefix, NoAttr: noattr, Dot: dot, Pol: rt.OrderPolicy, Toggle: c09Toggled}
 	}
 	shape := "plain"
 	if hasEmptyKey(m) {
@@ -139,10 +152,15 @@ func c09Check(c *Ctx, m map[string]interface{}, prefix string, noattr, dot bool)
 			ln = mv.LeafNodes(mxj.NoAttributes)
 			lp = mv.LeafPaths(mxj.NoAttributes)
 			lv = mv.LeafValues(mxj.NoAttributes)
-		} else {
+		} else if len(m)%2 == 0 {
 			ln = mv.LeafNodes()
 			lp = mv.LeafPaths()
 			lv = mv.LeafValues()
+		} else {
+			// the explicit "false" form must mean the same as no argument
+			ln = mv.LeafNodes(false)
+			lp = mv.LeafPaths(false)
+			lv = mv.LeafValues(false)
 		}
 	})
 	c.S.Transitions += 3
@@ -197,7 +215,7 @@ func c09Check(c *Ctx, m map[string]interface{}, prefix string, noattr, dot bool)
 
 func c09Run(c *Ctx) {
 	mustBeDefault(c)
-	c.S.Rule = "cases = (Map, attribute prefix, no-attributes, dot-notation): every Map template with <= N nodes over keys {a, b, <prefix>x, #text} (enumeration + resolution clauses) and over {a, \"\", a.b, <prefix>x} (enumeration clause with arbitrary keys incl. the empty key), leaves incl. null, plus Maps decoded from the U-XML documents; prefixes {-, @, \"\", attr_}; each under ascending and descending map order. Oracle: reference leaf list (multiset of path=value), LeafPaths/LeafValues are projections, every leaf path resolves through ValuesForPath to exactly its value. non-trivial = at least one leaf."
+	c.S.Rule = "cases = (Map, attribute prefix, no-attributes, dot-notation): every Map template with <= N nodes over keys {a, y<prefix>z, <prefix>x, #text} (enumeration + resolution clauses) and over {a, \"\", a.b, <prefix>x} (enumeration clause with arbitrary keys incl. the empty key), leaves incl. null, plus Maps decoded from the U-XML documents; prefixes {-, @, \"\", attr_} (dot notation set explicitly for two of them and reached through the toggling form for the other two); explicit false and omitted no_attr argument alternate; each under ascending and descending map order. Oracle: reference leaf list (multiset of path=value), LeafPaths/LeafValues are projections, every leaf path resolves through ValuesForPath to exactly its value. non-trivial = at least one leaf."
 	c.S.Assumptions = []string{"reference leaf enumeration in harness/c09.go", "resolution clause restricted as the property states (keys free of . [ *, no list-in-list, bracket notation)"}
 	n := 5
 	if c.Thorough {
@@ -207,7 +225,8 @@ func c09Run(c *Ctx) {
 		for _, dot := range []bool{false, true} {
 			applied := false
 			for fam := 0; fam < 2; fam++ {
-				keys := []string{"a", "b", prefix + "x", "#text"}
+				// "y<prefix>z" contains the attribute prefix in a non-leading position: not an attribute
+				keys := []string{"a", "y" + prefix + "z", prefix + "x", "#text"}
 				if fam == 1 {
 					keys = []string{"a", "", "a.b", prefix + "x"}
 				}
@@ -220,6 +239,10 @@ func c09Run(c *Ctx) {
 						}
 						if !applied {
 							applyCfg(Cfg{AttrPrefix: prefix, KeyPrefix: "#", DotNot: dot})
+							c09Toggled = prefix == "@" || prefix == ""
+							if c09Toggled {
+								c09Toggle(dot) // same setting, reached through the toggling form
+							}
 							applied = true
 						}
 						c.S.States++
@@ -244,6 +267,7 @@ func c09Run(c *Ctx) {
 			}
 		}
 	}
+	c09Toggled = false
 	// decoded XML documents (default prefix and "@")
 	for _, prefix := range []string{"-", "@"} {
 		applyCfg(Cfg{AttrPrefix: prefix, KeyPrefix: "#"})
